@@ -19,3 +19,5 @@ prop('C08', ['M5', 'K1'], 'inspection', ['algebra'])
 prop('C14', ['A3'], 'immutability', ['histories'])
 
 prop('C17', ['L1', 'L3', 'L4', 'L5', 'T3'], 'concurrency', ['linearizability'])
+
+prop('C12', ['G1', 'G2', 'G5', 'K6', 'L4'], 'registry', ['histories'])
